@@ -273,6 +273,12 @@ func observed(sig, hints map[string]string, sc replay.Script, rep *replay.Result
 		if sig["kind"] == "double-close" && strings.Contains(o.Panic, "close of closed channel") {
 			return true, "" // the panic ends the run wherever the script stood
 		}
+		if strings.Contains(o.Panic, "nil pointer dereference inside a goroutine of the generated injector") {
+			switch sig["kind"] {
+			case "read-before-write", "race", "entered-before-producer-returned", "argument-differs", "result-differs":
+				return true, "" // the real code crashed reading the unwritten value
+			}
+		}
 		if !o.Realised {
 			why = "schedule not realisable: " + o.StuckAt
 			continue
